@@ -416,6 +416,10 @@ func (t *Task) verifyFunc(fn *ssa.Function, con *FuncContract) {
 			v := env.evalBool(c.Expr, c.Src)
 			t.assume(tTrue, v)
 			t.requiresListed = append(t.requiresListed, c.Expr)
+		case "premise":
+			// magnitude premise about the environment (clock values ...): assumed, listed, not a call-site obligation
+			t.assume(tTrue, env.evalBool(c.Expr, c.Src))
+			t.assumed["magnitude premise ("+c.Src+"): "+c.Expr] = true
 		case "ext":
 			// values returned by opaque calls made in the body: nameable from the start
 			v := env.evalSrc(c.Expr, c.Src)
@@ -454,6 +458,15 @@ func (t *Task) verifyFunc(fn *ssa.Function, con *FuncContract) {
 			v := penv.evalSrc(c.Expr, c.Src)
 			penv.vars[c.Name] = v
 			act.lets[c.Name] = v
+		case "witness":
+			v := penv.evalSrc(c.Expr, c.Src)
+			if v.isScalar() {
+				if t.modelNames == nil {
+					t.modelNames = map[string]string{}
+				}
+				t.modelNames[v.S] = c.Name
+				t.modelSyms = append(t.modelSyms, v.S)
+			}
 		case "atexit":
 			act.ghostAssign(out, c)
 			penv = act.exprEnv(out, vars)
